@@ -1,6 +1,6 @@
 (* C06 — Source addresses print to strings that parse back to the same address.
    Only statements, each closed by [exact] of a lemma proved elsewhere. *)
-From Slug Require Import Base.Str Base.PathAlg Addr.Resolve Addr.Url Addr.Parse Addr.ParseProofs.
+From Slug Require Import Base.Str Base.PathAlg Addr.Resolve Addr.ResolveProofs Addr.Url Addr.Parse Addr.ParseProofs Addr.RoundTrip.
 
 (* ---- local addresses ---- *)
 (* a local address value is the text that was parsed: printing and parsing are inverse *)
@@ -22,6 +22,21 @@ Example C06_local_resolve_examples :
   resolve_local (s2l "./a") (s2l "../../") = s2l "../" /\
   resolve_local (s2l "../a") (s2l "./b/c") = s2l "../a/b/c".
 Proof. vm_compute. repeat split. Qed.
+
+(* ---- registry addresses ----
+   [wf_mpkgb] is what every package value returned by ParseRegistrySource satisfies
+   (canonical host in the sense of svchost, names of the documented shape); the
+   addr stream evaluates it on every accepted registry address of a run. *)
+Theorem C06_registry_round_trip :
+  forall p sub, wf_mpkgb p = true -> valid_sub sub -> ~ In c_qmark sub -> all_ascii sub = true ->
+    parse_registry (registry_string p sub) = Ok (p, sub).
+Proof. exact registry_round_trip. Qed.
+Print Assumptions C06_registry_round_trip.
+
+Theorem C06_registry_package_round_trip :
+  forall p, wf_mpkgb p = true -> parse_registry_pkg (mpkg_string p) = Ok p.
+Proof. exact registry_pkg_round_trip. Qed.
+Print Assumptions C06_registry_package_round_trip.
 
 (* ---- remote, registry and final registry addresses: where the statement fails ----
    The full statement "every value prints to text that parses back to it" is
